@@ -141,9 +141,9 @@ PROPS = {
                                                        "sign-then-verify (secp256k1) and the file save/load round trip are NOT covered (DESIGN 5.C17)"],
                 trusted_base=TB, explanation="string obligations are syntactic equalities of SMT string terms; the signature loop has an inductive invariant"),
     "C18": dict(level="proof", assumptions=COMMON + ["stdin / getpass answers are arbitrary strings; os.urandom(n) returns n arbitrary bytes",
-                                                       "scope: onboard (up to and including the onboarding call), unlock and the device-side onboarding/PIN methods; "
-                                                       "changepin and the public-key export (pubkeys.py) are NOT covered yet; 'the operation is carried out when "
-                                                       "the preconditions hold' only as: normal return of do_unlock => exactly one unlock"],
+                                                       "scope: onboard (up to and including the onboarding call), unlock, changepin and the device-side onboarding/PIN methods; "
+                                                       "the public-key export (pubkeys.py) is NOT covered; 'the operation is carried out when the preconditions hold' only as: "
+                                                       "normal return of do_unlock => exactly one unlock, normal return of do_changepin => the device acknowledged a PIN change"],
                 trusted_base=TB, explanation="dominance of every destructive device call by its preconditions, as assertions at the call sites over all paths"),
     "C16": dict(level="proof", assumptions=COMMON + ["A-CRYPTO: element validity is an uninterpreted predicate",
                                                        "scope: version-1 certificates: _parse terminates (unwinding assertion over the finite universe of the four "
